@@ -33,10 +33,18 @@ Definition neg32 (x : N) : bool := 2 ^ 31 <=? x.
 (* the 64-bit patterns that survive uint32 + sign extension *)
 Definition enum32 (x : N) : bool := (x <? 2 ^ 31) || ((2 ^ 64 - 2 ^ 31 <=? x) && (x <? 2 ^ 64)).
 
+(* [short bs n] = (len bs <? n), computed by walking at most n cells, so that a
+   check costs what the data it guards costs (lemma short_spec in proofs/) *)
+Fixpoint short (bs : list N) (n : N) : bool :=
+  match bs with
+  | [] => 0 <? n
+  | _ :: r => if n =? 0 then false else short r (N.pred n)
+  end.
+
 (* split off n bytes; the comparison is made in N so that a hostile count is
    never converted to nat *)
 Definition take (n : N) (bs : list N) : option (list N * list N) :=
-  if len bs <? n then None
+  if short bs n then None
   else Some (firstn (N.to_nat n) bs, skipn (N.to_nat n) bs).
 
 Definition nthN (bs : list N) (i : N) : option N :=
